@@ -24,6 +24,8 @@ POOL = {
     # terminals owning exactly 16 / 32 / 17 accepting states (line-wrapped state lists)
     "sixteen": G % "sixteen" + 'AS = /a{1,16}/;\nCS = /c{1,17}/;\nstart = {AS | CS};\n',
     "thirtytwo": G % "thirtytwo" + 'BS = /b{1,32}/;\nstart = {BS | "x"};\n',
+    # exactly 16 / 32 / 48 symbols lead from one state to the same next state (line-wrapped case lists)
+    "wrap16": G % "wrap16" + 'HEX = /h[0-9A-F]+/;\nSP = /s[\\x20-\\x3F]/;\nLW = /w[a-z0-9A-L]/;\nstart = {HEX | SP | LW};\n',
     "nonascii": G % "nonascii" + 'EE = /\\x00E9+/;\nEUR = /\\x20AC/;\nID = /[a-z]+/;\nstart = {EE | EUR | ID};\n',
     "control": G % "control" + 'CTL = /[\\x01-\\x08]/;\nBEL = /\\x07\\x07/;\nID = /[a-z]+/;\nstart = {CTL | BEL | ID};\n',
     "nostate": G % "nostate" + 'IFP = /i[f]/;\nID = /[a-z]+x/;\nstart = {"if" | IFP | ID};\n',
